@@ -57,13 +57,14 @@ def make_backend_class():
     from syne_tune.backend.local_backend import LocalBackend
 
     class ScriptedLocalBackend(LocalBackend):
-        def __init__(self, tape, rec, script_fn, delete_checkpoints=False, allow_late_lines=True, batch_max=4):
+        def __init__(self, tape, rec, script_fn, delete_checkpoints=False, allow_late_lines=True, batch_max=4, external_stop=False):
             super().__init__(entry_point=__file__, delete_checkpoints=delete_checkpoints, rotate_gpus=False)
             self.tape = tape
             self.rec = rec
             self.script_fn = script_fn
             self.allow_late_lines = allow_late_lines
             self.batch_max = batch_max
+            self.external_stop = external_stop
             self.procs = {}  # trial -> list of FakeProcess (one per run)
             self.ts_counter = 1000.0
             self.paused_level = {}
@@ -125,7 +126,16 @@ def make_backend_class():
                 # keep per-process order implicit: lines of one process are written in order anyway
             for p in todo:
                 self._write_line(p)
+            if self.external_stop:
+                # a trial stopped from outside the scheduler: somebody writes the stop file and the job dies
+                for p in live:
+                    if p.alive and t.chance(1, 8):
+                        self._file_path(trial_id=p.trial_id, filename="stop").touch()
+                        p.killed = True
+                        self.rec.add("script.external_stop", trial_id=p.trial_id, run=p.run_index)
             for p in live:
+                if not p.alive:
+                    continue
                 if p.written >= len(p.lines):
                     # completion may become visible in the same poll as the last lines, or later
                     if t.weighted([(3, True), (1, False)]):
@@ -167,6 +177,7 @@ def run_scripted(
     max_loops=3000,
     results_update_interval=1e9,
     outside_time=False,
+    external_stop=False,
 ):
     from syne_tune import Tuner
     from syne_tune.results_callback import StoreResultsCallback
@@ -176,7 +187,7 @@ def run_scripted(
     driver_sim.tmp_root()
     driver_sim.clean_tmp()
     rec = driver_sim.Recorder()
-    be = backend_class()(t, rec, script_fn, delete_checkpoints=delete_checkpoints, allow_late_lines=allow_late_lines)
+    be = backend_class()(t, rec, script_fn, delete_checkpoints=delete_checkpoints, allow_late_lines=allow_late_lines, external_stop=external_stop)
     driver_sim.instrument_scheduler(scheduler, rec)
     driver_sim.instrument_backend(be, rec, sim_time=None)
     store = StoreResultsCallback()
